@@ -14,7 +14,7 @@ Specification (from the property text and the function's docstring, not from its
     (for a slice that IS an overridden tag, b is the end of the original tag: shift(d, b) already contains the tag's own delta),
     slices stay ordered, keep their length unless they are an overridden tag (then the length changes by -delta), gaps keep their size.
 """
-from pyvc.dsl import contract, spec, lemma, assumed, implies
+from pyvc.dsl import contract, spec, lemma, implies
 from pyvc.ty import INT, BOOL, TList, TTuple, TDict
 
 from .types import TemplatedFileSlice
@@ -63,7 +63,7 @@ def tag_hit(d, sf, x, i):
 
 
 @spec
-def every_tag_hit_once(d, sf):
+def every_tag_hit_once(d, sf) -> BOOL:
     """what the caller establishes for a template without loops: each overridden tag is one slice of the modified template's trace,
     and nothing else (no zero-length slice) starts at the tag's position"""
     return (all(any(tag_hit(d, sf, x, i) for i in range(len(sf))) for x in d.keys())
@@ -71,23 +71,19 @@ def every_tag_hit_once(d, sf):
                     for x in d.keys() for j in range(len(sf))))
 
 
-# The precondition `every_tag_hit_once` quantifies over the keys of the dict and mentions shift(d, key): left open among the
-# hypotheses of the loop's verification conditions it feeds z3's instantiation for ever (each unfolding of the recursive `shift`
-# tests membership of one more position, which instantiates the precondition at that position, which mentions `shift` again).
-# So the function's verification conditions see it as an ATOM (`caller_sync`); its definition is the @assumed (definitional)
-# statement below, opened only inside the proof of lemma L_next_tag.  Natively the atom IS its definition.
-@spec(uninterpreted=True)
-def caller_sync(d: TDict(INT, INT), sf: TList(TemplatedFileSlice)) -> BOOL:
-    """every_tag_hit_once(d, sf), as an atom"""
-    return every_tag_hit_once(d, sf)
-
-
-@assumed(props=(PROP,))
-def caller_sync_def(d: TDict(INT, INT), sf: TList(TemplatedFileSlice)) -> BOOL:
-    return caller_sync(d, sf) == every_tag_hit_once(d, sf)
-
-
+# NOTE on the proof: `every_tag_hit_once` quantifies over the keys of the dict and mentions shift(d, key).  Next to the recursive
+# definition of `shift` this feeds z3's instantiation for ever (each unfolding of `shift` tests membership of one more position,
+# which instantiates the precondition at that position, which mentions `shift` again), and left open among the hypotheses of the
+# loop body it makes even the trivial ordering obligations unstable.  So the verification conditions of the FUNCTION see both
+# `shift` and `every_tag_hit_once` as UNINTERPRETED symbols (opts abstract_specs; no axiom is assumed about them): every fact
+# about them comes from an instance of one of the lemmas below, which are proved against the definitions (L_next_tag opens the
+# precondition and uses L_const for `shift`).
 # ------------------------------------------------------------------ lemmas
+@lemma(props=(PROP,))
+def L_zero(d: TDict(INT, INT), q: INT):
+    return implies(q <= 0, shift(d, q) == 0)
+
+
 @lemma(measure=lambda d, a, b: b - a,
        hyps=lambda d, a, b: ((d, a, b - 1),),
        props=(PROP,))
@@ -102,16 +98,19 @@ def L_after_tag(d: TDict(INT, INT), x: INT, b: INT):
     return implies(x >= 0 and b >= x + 1 and no_key_in(d, x + 1, b), shift(d, b) == shift(d, x) + d.get(x, 0))
 
 
-@lemma(unfold=lambda d, sf, i, c, cur, x: L_const(d, cur, x) and caller_sync_def(d, sf), props=(PROP,))
+@lemma(unfold=lambda d, sf, i, c, cur, x: L_const(d, cur, x), props=(PROP,))
 def L_next_tag(d: TDict(INT, INT), sf: TList(TemplatedFileSlice), i: INT, c: INT, cur: INT, x: INT):
     """the walk is in step with the tags: slices 0..i-1 are done, `cur` is the original position reached, c = -shift(d, cur) the
     carried delta, x the first overridden tag at or behind cur.  Then the next slice does not start behind x (in original
     coordinates), and either it IS the tag x or it ends before x."""
-    return implies(all(k >= 0 for k in d.keys()) and ordered(sf) and caller_sync(d, sf)
+    return implies(all(k >= 0 for k in d.keys()) and ordered(sf) and every_tag_hit_once(d, sf)
                    and 0 <= i < len(sf) and cur == (0 if i == 0 else sf[i - 1].source_slice.stop + c)
                    and c == 0 - shift(d, cur) and x in d and x >= cur and no_key_in(d, cur, x),
                    x >= sf[i].source_slice.start + c
                    and (tag_hit(d, sf, x, i) if x == sf[i].source_slice.start + c else x >= sf[i].source_slice.stop + c))
+
+
+L_next_tag.opts = {"abstract_specs": ["shift"]}     # needs L_const(d, cur, x) only (given by `unfold`), not the definition
 
 
 # ------------------------------------------------------------------ the contract
@@ -121,12 +120,15 @@ class rectify_templated_slices:
              "delta_stack": TList(TTuple(INT, INT)), "adjusted_slices": TList(TemplatedFileSlice),
              "carried_delta": INT, "idx": INT, "d": INT}
     ret = TList(TemplatedFileSlice)
+    # on the unchanged function every obligation is discharged in well under a second; the budget below only caps the cost of a
+    # COLLAPSED proof (a changed function): 4 s, then 12 s, then 40 s on a busy machine, per obligation, at most 3 undecided per shard
+    opts = {"abstract_specs": ["shift", "every_tag_hit_once"], "max_unknown": 3, "timeout_ms": 4000}
 
     def requires(length_deltas, sliced_template):
         return (all(x >= 0 for x in length_deltas.keys())
                 and ordered(sliced_template)
                 and all(sliced_template[i].source_slice.start >= 0 for i in range(len(sliced_template)))
-                and caller_sync(length_deltas, sliced_template))
+                and every_tag_hit_once(length_deltas, sliced_template))
 
     def ensures(length_deltas, sliced_template, result):
         return (len(result) == len(sliced_template)
@@ -150,7 +152,7 @@ class rectify_templated_slices:
         cur = 0 if _i == 0 else _iter[_i - 1].source_slice.stop + carried_delta
         n = len(delta_stack)
         return (_iter == sliced_template and len(adjusted_slices) == _i
-                and carried_delta == 0 - shift(length_deltas, cur)
+                and carried_delta == (0 if _i == 0 else 0 - shift(length_deltas, cur))
                 # the stack: items of the dict, strictly increasing keys
                 and all(delta_stack[a][0] in length_deltas and length_deltas.get(delta_stack[a][0], 0) == delta_stack[a][1]
                         for a in range(n))
@@ -179,8 +181,9 @@ class rectify_templated_slices:
     def hint_inv_1(length_deltas, delta_stack, carried_delta, _i, _iter):
         """lemma instances at the loop head (cur = the original position reached): shift is constant from cur to the start and to
         the stop of the next slice when no tag starts there; the next tag on the stack against the next slice; the shift behind it"""
-        return (L_const(length_deltas, (0 if _i == 0 else _iter[_i - 1].source_slice.stop + carried_delta),
-                        _iter[_i].source_slice.start + carried_delta)
+        return (L_zero(length_deltas, 0)
+                and L_const(length_deltas, (0 if _i == 0 else _iter[_i - 1].source_slice.stop + carried_delta),
+                            _iter[_i].source_slice.start + carried_delta)
                 and L_const(length_deltas, (0 if _i == 0 else _iter[_i - 1].source_slice.stop + carried_delta),
                             _iter[_i].source_slice.stop + carried_delta)
                 and implies(len(delta_stack) > 0,
@@ -247,6 +250,8 @@ def _layout_case(layout):
             modified.append(TFS(kind, slice(m, m + old_len), slice(t, t + old_len)))
             original.append(TFS(kind, slice(o, o + old_len), slice(t, t + old_len)))
             o, m, t = o + old_len, m + old_len, t + old_len
+    if len(layout) % 2:
+        deltas = dict(reversed(list(deltas.items())))      # the dict's insertion order is not the key order
     return deltas, modified, original
 
 
@@ -462,9 +467,6 @@ MUTANTS = [
 ]
 
 TRUSTED = [
-    "definitional @assumed statement caller_sync_def (contracts/c07_rectify.py): the atom caller_sync(d, sf) in `requires` of "
-    "_rectify_templated_slices IS every_tag_hit_once(d, sf); opened only in the proof of lemma L_next_tag; natively the atom is "
-    "evaluated as its definition",
     "builtins.sorted(list, key) (stable permutation ordered by key) and dict.items() (an enumeration of the dict without repetition, "
     "order not modelled): assumed engine models",
     "the precondition of _rectify_templated_slices (ordered slices; every overridden tag is exactly one slice of the modified "
@@ -479,6 +481,7 @@ NOT_COVERED = [
 ]
 
 BOUNDED = [rectify_generated_layouts, rectify_call_sites]
+SHARDS = {KEY: 4}        # the function's obligations are solved by 4 workers
 
 if __name__ == "__main__":
     import json
